@@ -435,3 +435,32 @@ class Unprintable(object):
 
     def _sim_summary(self):
         return ("Unprintable", self.n)
+
+
+class RaisesAt(object):
+    """callable pre-element: passes values through and raises the given exception at its k-th call
+    (the way lena.context.get_recursively raises LenaKeyError for a value that lacks a key)"""
+
+    def __init__(self, exc_class, k):
+        self.exc_class = exc_class
+        self.k = k
+        self.n = 0
+
+    def __call__(self, value):
+        n = self.n
+        self.n += 1
+        if n == self.k:
+            raise self.exc_class("value %d cannot be processed" % n)
+        return value
+
+
+class Numbering(object):
+    """stateful callable pre-element: numbers the values it sees"""
+
+    def __init__(self):
+        self.n = 0
+
+    def __call__(self, value):
+        n = self.n
+        self.n += 1
+        return ("numbered", n, value)
